@@ -37,6 +37,7 @@ type pair struct {
 	old, new string
 	probe    probe
 	seed     []queue.Envelope
+	pre      []probe // requests served before the reload starts (e.g. to empty a rate-limit bucket)
 }
 
 func post(path, extra, body string) string {
@@ -70,6 +71,24 @@ var pairs = []pair{
 		old:   head + `/a { max_body 8  pull { path /ea } }`,
 		new:   head + `/a { max_body 4  pull { path /ea } }`,
 		probe: probe{"ingress", post("/a", "", "123456")}, // 202 under old, 413 under new
+	},
+	{
+		// the limited route is removed: under old the emptied bucket refuses (429), under new the route is gone (404);
+		// a request routed under old but limited under new would be admitted
+		name:  "P6-rate-limited-route-removed",
+		old:   head + `/a { rate_limit { rps 1 burst 1 }  pull { path /ea } }`,
+		new:   head + `/b { pull { path /eb } }`,
+		probe: probe{"ingress", post("/a", "", "x")},
+		pre:   []probe{{"ingress", post("/a", "", "first")}},
+	},
+	{
+		// a limiter is added to a route whose global bucket is empty: old = global limiter refuses (429), new = route
+		// override with a full bucket admits (202); both are legal, anything else is a mixture
+		name:  "P7-route-limit-added-over-empty-global",
+		old:   strings.Replace(head, `listen "127.0.0.1:18080"`, `listen "127.0.0.1:18080"  rate_limit { rps 1 burst 1 }`, 1) + `/a { pull { path /ea } }`,
+		new:   strings.Replace(head, `listen "127.0.0.1:18080"`, `listen "127.0.0.1:18080"  rate_limit { rps 1 burst 1 }`, 1) + `/a { rate_limit { rps 1 burst 2 }  pull { path /ea } }`,
+		probe: probe{"ingress", post("/a", "", "x")},
+		pre:   []probe{{"ingress", post("/a", "", "first")}},
 	},
 	{
 		name:  "P5-basic-to-hmac-same-route",
@@ -130,6 +149,13 @@ func body(p pair, mode int, dir string) func(x *sched.Exec) {
 		if err := os.WriteFile(a.ConfigPath, []byte(p.new), 0o644); err != nil {
 			x.Err = err
 			return
+		}
+		for _, pr := range p.pre {
+			h := a.Ingress
+			if pr.surface == "pull" {
+				h = a.Pull
+			}
+			h.ServeHTTP(httptest.NewRecorder(), request(pr.raw))
 		}
 		doReq := func() {
 			w := httptest.NewRecorder()
